@@ -154,6 +154,23 @@ def run(ctx):
         # ---- encode: out-of-domain values ------------------------------------------------------
         for lbl, bad in tg.bad_values(case.desc, rng):
             b.enc_bad(case, lbl, bad)
+        # Rejection may not depend on what was encoded before: first a VALID value, then values of a wrong Python type that are
+        # numerically equal to it (1.0, Decimal(1), Fraction(1) after 1) - a memoised packer keyed on equality would let them pass.
+        d_ = case.desc
+        if d_[0] == "int" or (d_[0] == "array" and d_[1] > 0 and d_[2][0] == "int"):
+            import decimal
+            import fractions
+            for _rep in range(3):
+                v = tg.gen_value(d_, rng, small=True)
+                if not rc.in_domain(d_, v):
+                    continue
+                budget.call(BUDGET + 400 * rc.min_size(d_), case.lib.encode, v)   # the valid value first
+                leaves = v if isinstance(v, list) else [v]
+                if any(float(x) != x for x in leaves):
+                    continue
+                for lbl, conv in (("equal-float-after-valid", float), ("equal-Decimal-after-valid", decimal.Decimal), ("equal-Fraction-after-valid", fractions.Fraction)):
+                    bad = [conv(x) for x in v] if isinstance(v, list) else conv(v)
+                    b.enc_bad(case, lbl, bad)
         # ---- decode: truncations of valid encodings, empty buffer, random bytes -----------------
         for rep in range(8 if case.depth == 0 else 4):
             v = tg.gen_value(case.desc, rng, small=True)
